@@ -130,7 +130,7 @@ def h_fmt(fmt, strict):
         v = {}
         for p in parts:
             if not isinstance(p, str):
-                lo, hi = {"Y": (1000, 9999), "d": (1, 28), "H": (0, 23), "M": (0, 59), "m": (1, 12)}[p[0]]
+                lo, hi = {"Y": (1000, 9999), "d": (1, 31), "H": (0, 23), "M": (0, 59), "m": (1, 12)}[p[0]]
                 v[p[0]] = C.field(p[0], lo, hi)
         s = tmpl(parts, v)
         base = {"TIMEZONE": "UTC"}
